@@ -157,11 +157,24 @@ def translate_block(target, fn):
     `locals` (or the result statement itself) up to the result statement."""
     want, mentions, locs = target["result"], target.get("mentions", []), target.get("locals", [])
     found = []
+    def resolved(blk, i):
+        """the value assigned by statement i; for `w = f(name)` with inner_call f, `name` is replaced by the value of the
+        single earlier assignment to it in the same statement list (factors = <expr>; terms = np.cumprod(factors))"""
+        val = blk[i].value
+        if target.get("inner_call") and isinstance(val, ast.Call) and ast.unparse(val.func) == target["inner_call"] \
+                and len(val.args) == 1 and not val.keywords and isinstance(val.args[0], ast.Name):
+            nm = val.args[0].id
+            prev = [s2 for s2 in blk[:i] if isinstance(s2, ast.Assign) and any(ast.unparse(t) == nm for t in s2.targets)]
+            touched = [s2 for s2 in blk[:i] if isinstance(s2, (ast.AugAssign, ast.Assign)) and any(
+                isinstance(t, ast.Subscript) and ast.unparse(t.value) == nm for t in (s2.targets if isinstance(s2, ast.Assign) else [s2.target]))]
+            if len(prev) == 1 and not touched and len(prev[0].targets) == 1:
+                return ast.Call(func=val.func, args=[prev[0].value], keywords=[])
+        return val
     for blk in blocks(fn.body):
         for i, st in enumerate(blk):
             if isinstance(st, ast.Assign) and len(st.targets) == 1 and ast.unparse(st.targets[0]) == want \
                     and (not isinstance(st.value, (ast.Name, ast.Attribute, ast.Constant)) or target.get("allow_simple")) \
-                    and all(m in ast.unparse(st.value) for m in mentions):
+                    and all(m in ast.unparse(resolved(blk, i)) for m in mentions):
                 found.append((blk, i))
     if len(found) != 1:
         raise TranslationError(f"{target['func']}: expected exactly one assignment to {want} mentioning {mentions}, found {len(found)}")
@@ -176,7 +189,7 @@ def translate_block(target, fn):
         name = ast.unparse(st.targets[0])
         lets.append((name, expr(st.value, env, target["atoms"])))
         env[name] = f"v_{name}"
-    val = blk[i].value
+    val = resolved(blk, i)
     if target.get("inner_call"):     # e.g. terms = np.cumprod(<expr>): translate the argument
         if not (isinstance(val, ast.Call) and ast.unparse(val.func) == target["inner_call"] and len(val.args) == 1 and not val.keywords):
             raise TranslationError(f"{target['func']}: {want} is no longer {target['inner_call']}(<expr>)")
